@@ -2444,3 +2444,7 @@ mod tests {
         assert!((source.clock_wander - 1e-8).abs() < 1e-12);
     }
 }
+
+#[cfg(all(test, feature = "pendulum_project_ntpd_rs_verif"))]
+#[path = "../../../../../verif/harness/ntp_proto/algorithm_kalman_source.rs"]
+mod verif_algorithm_kalman_source;
